@@ -933,13 +933,20 @@ def generate_poolreset():
         for x in pro:
             if x != 'self._map_guard = True' and not any(re.fullmatch(rx, x) for rx in known.values()):
                 raise Untranslatable(f'{path.name}:{outer.lineno}: no pattern for `{x}` in the prologue of Pool.run')
+        # the "run in progress" flag: set inside the try whose finally clears it - every way out of run() that has set it clears it
+        before_try = [ast.unparse(x) for x in run.body[:run.body.index(outer)]]
+        set_in_try = 'self._map_guard = True' in pro and not any('self._map_guard = True' in x for x in before_try)
+        cleared = any(ast.unparse(x) == 'self._map_guard = False' for x in outer.finalbody)
         b = lambda v: str(bool(v)).lower()  # noqa: E731
         out.append(f'/-- what `Pool.run` ({path.name}:{run.lineno}) re-initialises on entry -/')
         out.append('def poolReset : ResetCfg := { depleted := %s, pending := %s, ppw := %s, retries := %s, ret := %s }\n'
                    % tuple(b(flags[k]) for k in ('depleted', 'pending', 'ppw', 'retries', 'ret')))
+        out.append('/-- where the run-in-progress flag `_map_guard` is set and cleared -/')
+        out.append('def poolGuard : GuardCfg := { setInTry := %s, clearedInFinally := %s }\n' % (b(set_in_try), b(cleared)))
     except Exception as e:
         errors.append(f'poolreset: {type(e).__name__}: {e}')
         out.append('def poolReset : ResetCfg := ⟨false, false, false, false, false⟩\n')
+        out.append('def poolGuard : GuardCfg := ⟨false, false⟩\n')
     out.append('end PwVerif.Gen')
     return '\n'.join(out) + '\n', errors
 
